@@ -715,10 +715,13 @@ Proof.
   split; [exact H1|split; [exact H2|split; apply valid_at_b_sound; assumption]].
 Qed.
 
-Lemma base_ok_b_sound : forall base bs, base_ok_b base bs = true -> forallb seg_ok bs = true /\ trim_slashes base = join_slash bs.
+Lemma base_ok_b_sound : forall base bs, base_ok_b base bs = true ->
+  forallb seg_ok bs = true /\ trim_slashes base = join_slash bs /\ path_segments base = bs.
 Proof.
-  intros base bs H. unfold base_ok_b in H. apply andb_true_iff in H. destruct H as [H1 H2].
-  apply str_eqb_eq in H2. split; assumption.
+  intros base bs H. unfold base_ok_b in H. apply andb_true_iff in H. destruct H as [H H3].
+  apply andb_true_iff in H. destruct H as [H1 H2].
+  apply str_eqb_eq in H2. split; [exact H1|split; [exact H2|]].
+  apply (list_eqb_sound str_eqb); [intros; apply str_eqb_eq; assumption|exact H3].
 Qed.
 
 (** * C14_spec *)
@@ -814,4 +817,345 @@ Proof.
              (conj Hn (conj Ht (conj Ha Hl))) Hb Hold).
   rewrite (IH l); [reflexivity| |exact Hb|exact Hnd].
   split; [exact Hn|split; [exact Ht|exact Hrest]].
+Qed.
+
+(** * First-match semantics: overlapping routes *)
+Lemma all_empty_not_ok : forall n ns a, all_empty n ns = true -> (a < n)%nat -> all_ok n ns = false.
+Proof.
+  intros n ns a He Ha. destruct (all_ok n ns) eqn:E; [|reflexivity].
+  pose proof (all_ok_nth n ns a E Ha) as H. rewrite (all_empty_nth n ns a He Ha) in H. discriminate.
+Qed.
+
+Lemma all_ok_not_empty : forall n ns a, all_ok n ns = true -> (a < n)%nat -> all_empty n ns = false.
+Proof.
+  intros n ns a Ho Ha. destruct (all_empty n ns) eqn:E; [|reflexivity].
+  rewrite (all_empty_not_ok n ns a E Ha) in Ho. discriminate.
+Qed.
+
+Lemma match_none_parses : forall n a r idx segs, (a < n)%nat ->
+  match_segs (map (concr a) r) idx segs = None -> parses n a r segs = [].
+Proof.
+  intros n a r idx segs Ha H. destruct (parses n a r segs) as [|i ps] eqn:E; [reflexivity|].
+  exfalso. assert (Hin : In i (parses n a r segs)) by (rewrite E; left; reflexivity).
+  destruct (parses_sound n a r segs i Hin) as [H1 H2].
+  apply (match_complete n a r i H1 Ha idx). rewrite H2. exact H.
+Qed.
+
+Lemma match_hd : forall n a b r idx segs o,
+  forallb (aseg_ok n) r = true -> (a < n)%nat -> (b < n)%nat -> forallb seg_ok segs = true ->
+  match_segs (map (concr a) r) idx segs = Some o ->
+  exists inst ps, parses n a r segs = inst :: ps /\ Forall (fun i => (idx <= i)%nat) o /\
+    forall o' pb, (forall i, (idx <= i)%nat -> mem_nat i o' = mem_nat i o) ->
+      construct (map (concr b) r) idx segs o' pb = Ok (pb ++ render b inst).
+Proof.
+  intros n a b r. induction r as [|x r IH]; intros idx segs o Hr Ha Hb Hs Hm.
+  - cbn [map match_segs] in Hm. destruct segs; [|discriminate]. inversion Hm; subst.
+    exists [], []. repeat split; [constructor|]. intros o' pb _. cbn [map render]. rewrite app_nil_r. reflexivity.
+  - cbn [forallb] in Hr. apply andb_true_iff in Hr. destruct Hr as [Hx Hr].
+    destruct x as [|ns|p|p|p]; cbn [map concr match_segs] in Hm; cbn [parses].
+    + (* Unit *)
+      destruct (IH (S idx) segs o Hr Ha Hb Hs Hm) as [inst [ps [I1 [I3 I4]]]].
+      exists inst, ps. split; [exact I1|]. split; [eapply Forall_impl; [|exact I3]; cbn beta; lia|].
+      intros o' pb Ho'. destruct segs as [|s segs'].
+      * rewrite construct_nil. rewrite <- (I4 o' pb) by (intros i Hi; apply Ho'; lia). symmetry. apply construct_nil.
+      * cbn [map concr construct]. apply I4. intros i Hi. apply Ho'. lia.
+    + (* Static *)
+      cbn [aseg_ok] in Hx. apply orb_true_iff in Hx. destruct Hx as [He|Ho].
+      * pose proof (all_empty_nth n ns a He Ha) as Ea. pose proof (all_empty_nth n ns b He Hb) as Eb.
+        rewrite Ea in Hm. cbn [nonempty] in Hm.
+        destruct (IH (S idx) segs o Hr Ha Hb Hs Hm) as [inst [ps [I1 [I3 I4]]]].
+        exists inst, ps. split; [rewrite He, (all_empty_not_ok n ns a He Ha), app_nil_r; exact I1|].
+        split; [eapply Forall_impl; [|exact I3]; cbn beta; lia|].
+        intros o' pb Ho'. destruct segs as [|s segs'].
+        -- rewrite construct_nil. rewrite <- (I4 o' pb) by (intros i Hi; apply Ho'; lia). symmetry. apply construct_nil.
+        -- cbn [map concr construct]. rewrite Eb. cbn [nonempty]. apply I4. intros i Hi. apply Ho'. lia.
+      * pose proof (all_ok_nth n ns a Ho Ha) as Oa. pose proof (all_ok_nth n ns b Ho Hb) as Ob.
+        rewrite (seg_ok_nonempty _ Oa) in Hm.
+        destruct segs as [|s segs']; [discriminate|].
+        destruct (str_eqb (nth a ns []) s) eqn:E; [|discriminate].
+        cbn [forallb] in Hs. apply andb_true_iff in Hs. destruct Hs as [Hs1 Hs2].
+        destruct (IH (S idx) segs' o Hr Ha Hb Hs2 Hm) as [inst [ps [I1 [I3 I4]]]].
+        exists (IStat ns :: inst), (map (cons (IStat ns)) ps).
+        split; [rewrite Ho, (all_ok_not_empty n ns a Ho Ha), I1; reflexivity|].
+        split; [eapply Forall_impl; [|exact I3]; cbn beta; lia|].
+        intros o' pb Ho'. cbn [map concr construct]. rewrite (seg_ok_nonempty _ Ob).
+        rewrite (pb_push_seg pb _ Ob). rewrite I4 by (intros i Hi; apply Ho'; lia).
+        cbn [render map render_seg]. rewrite <- app_assoc. reflexivity.
+    + (* Param *)
+      destruct segs as [|s segs']; [discriminate|].
+      cbn [forallb] in Hs. apply andb_true_iff in Hs. destruct Hs as [Hs1 Hs2].
+      destruct (IH (S idx) segs' o Hr Ha Hb Hs2 Hm) as [inst [ps [I1 [I3 I4]]]].
+      exists (IVal s :: inst), (map (cons (IVal s)) ps).
+      split; [rewrite Hs1, I1; reflexivity|].
+      split; [eapply Forall_impl; [|exact I3]; cbn beta; lia|].
+      intros o' pb Ho'. cbn [map concr construct]. rewrite (pb_push_seg pb _ Hs1).
+      rewrite I4 by (intros i Hi; apply Ho'; lia).
+      cbn [render map render_seg]. rewrite <- app_assoc. reflexivity.
+    + (* Optional *)
+      destruct segs as [|s segs'].
+      * destruct (IH (S idx) [] o Hr Ha Hb Hs Hm) as [inst [ps [I1 [I3 I4]]]].
+        exists inst, ps. split; [exact I1|]. split; [eapply Forall_impl; [|exact I3]; cbn beta; lia|].
+        intros o' pb Ho'. rewrite construct_nil. rewrite <- (I4 o' pb) by (intros i Hi; apply Ho'; lia). symmetry. apply construct_nil.
+      * pose proof Hs as Hs0. cbn [forallb] in Hs. apply andb_true_iff in Hs. destruct Hs as [Hs1 Hs2].
+        destruct (match_segs (map (concr a) r) (S idx) segs') as [o1|] eqn:E1.
+        -- inversion Hm; subst o.
+           destruct (IH (S idx) segs' o1 Hr Ha Hb Hs2 E1) as [inst [ps [I1 [I3 I4]]]].
+           exists (IVal s :: inst), (map (cons (IVal s)) ps ++ parses n a r (s :: segs')).
+           split; [rewrite Hs1, I1; reflexivity|].
+           split; [constructor; [lia|]; eapply Forall_impl; [|exact I3]; cbn beta; lia|].
+           intros o' pb Ho'. cbn [map concr construct].
+           assert (M : mem_nat idx o' = true).
+           { rewrite (Ho' idx) by lia. unfold mem_nat. cbn [existsb]. rewrite Nat.eqb_refl. reflexivity. }
+           rewrite M. rewrite (pb_push_seg pb _ Hs1).
+           rewrite I4.
+           ++ cbn [render map render_seg]. rewrite <- app_assoc. reflexivity.
+           ++ intros i Hi. rewrite (Ho' i) by lia. apply mem_nat_cons_ne. lia.
+        -- destruct (IH (S idx) (s :: segs') o Hr Ha Hb Hs0 Hm) as [inst [ps [I1 [I3 I4]]]].
+           exists inst, ps.
+           split; [rewrite Hs1, (match_none_parses n a r (S idx) segs' Ha E1); exact I1|].
+           split; [eapply Forall_impl; [|exact I3]; cbn beta; lia|].
+           intros o' pb Ho'. cbn [map concr construct].
+           assert (M : mem_nat idx o' = false).
+           { rewrite (Ho' idx) by lia. apply mem_nat_ge_false. exact I3. }
+           rewrite M. apply I4. intros i Hi. apply Ho'. lia.
+    + (* Splat *)
+      inversion Hm; subst o.
+      exists (map IVal segs), []. split; [rewrite Hs; reflexivity|]. split; [constructor|].
+      intros o' pb _. rewrite render_map_IVal. destruct segs as [|s segs'].
+      * rewrite app_nil_r. reflexivity.
+      * cbn [map concr construct]. rewrite (fold_push_segs _ pb Hs). reflexivity.
+Qed.
+
+Lemma find_route_first : forall n a t segs inst, (a < n)%nat ->
+  atab_ok n t = true -> forallb seg_ok segs = true ->
+  first_parse n a t segs = Some inst -> forall pos,
+  exists k r o ps, find_route (fun r => match_segs r 0 segs) (table_of a t) pos = Some ((pos + k)%nat, o) /\
+    nth_error t k = Some r /\ match_segs (map (concr a) r) 0 segs = Some o /\ parses n a r segs = inst :: ps.
+Proof.
+  intros n a t segs inst Ha Ht Hs. unfold first_parse. induction t as [|r t IH]; intros H pos; [discriminate|].
+  cbn [atab_ok forallb] in Ht. unfold atab_ok in Ht. cbn [forallb] in Ht. apply andb_true_iff in Ht. destruct Ht as [Hr Ht].
+  cbn [flat_map table_of map find_route] in H |- *.
+  destruct (match_segs (map (concr a) r) 0 segs) as [o|] eqn:E.
+  - destruct (match_hd n a a r 0 segs o Hr Ha Ha Hs E) as [i [ps [P _]]].
+    rewrite P in H. cbn [app hd_error] in H. inversion H; subst i. exists 0%nat, r, o, ps.
+    repeat split; [f_equal; f_equal; lia|exact E|exact P].
+  - rewrite (match_none_parses n a r 0 segs Ha E) in H. cbn [app] in H.
+    destruct (IH Ht H (S pos)) as [k [r' [o [ps [F1 [F2 [F3 F4]]]]]]].
+    exists (S k), r', o, ps. unfold table_of in F1. rewrite F1. repeat split; [f_equal; f_equal; lia|exact F2|exact F3|exact F4].
+Qed.
+
+Lemma find_route_nomatch : forall n a t segs, (a < n)%nat ->
+  atab_ok n t = true -> forallb seg_ok segs = true ->
+  first_parse n a t segs = None -> forall pos,
+  find_route (fun r => match_segs r 0 segs) (table_of a t) pos = None.
+Proof.
+  intros n a t segs Ha Ht Hs. unfold first_parse. induction t as [|r t IH]; intros H pos; [reflexivity|].
+  unfold atab_ok in Ht. cbn [forallb] in Ht. apply andb_true_iff in Ht. destruct Ht as [Hr Ht].
+  cbn [flat_map table_of map find_route] in H |- *.
+  destruct (match_segs (map (concr a) r) 0 segs) as [o|] eqn:E.
+  - destruct (match_hd n a a r 0 segs o Hr Ha Ha Hs E) as [i [ps [P _]]]. rewrite P in H. discriminate.
+  - rewrite (match_none_parses n a r 0 segs Ha E) in H. cbn [app] in H. apply (IH Ht H).
+Qed.
+
+Lemma first_parse_render : forall n a t segs inst, first_parse n a t segs = Some inst -> render a inst = segs.
+Proof.
+  intros n a t segs inst H. unfold first_parse in H.
+  destruct (flat_map (fun r => parses n a r segs) t) as [|i ps] eqn:E; [discriminate|].
+  cbn [hd_error] in H. inversion H; subst i.
+  assert (Hin : In inst (flat_map (fun r => parses n a r segs) t)) by (rewrite E; left; reflexivity).
+  apply in_flat_map in Hin. destruct Hin as [r [_ Hp]]. apply (parses_sound n a r segs inst Hp).
+Qed.
+
+Lemma localize_first : forall n t a b segs pb,
+  atab_ok n t = true -> (a < n)%nat -> (b < n)%nat -> forallb seg_ok segs = true ->
+  localize_path segs (table_of a t) (table_of b t) pb =
+  Ok (match first_parse n a t segs with Some inst => Some (pb ++ render b inst) | None => None end).
+Proof.
+  intros n t a b segs pb Ht Ha Hb Hs. unfold localize_path, localize_path_with.
+  destruct (first_parse n a t segs) as [inst|] eqn:F.
+  - destruct (find_route_first n a t segs inst Ha Ht Hs F 0) as [k [r [o [ps [F1 [F2 [F3 F4]]]]]]].
+    rewrite F1. cbn [plus]. unfold table_of at 1. rewrite (nth_error_map_some _ _ _ _ F2).
+    assert (Hrok : forallb (aseg_ok n) r = true).
+    { unfold atab_ok in Ht. rewrite forallb_forall in Ht. apply Ht. eapply nth_error_In. exact F2. }
+    destruct (match_hd n a b r 0 segs o Hrok Ha Hb Hs F3) as [i [ps' [P [_ C]]]].
+    rewrite F4 in P. inversion P; subst i. rewrite (C o pb) by reflexivity. reflexivity.
+  - rewrite (find_route_nomatch n a t segs Ha Ht Hs F 0). reflexivity.
+Qed.
+
+Lemma strip_locale_segs : forall names dflt a segs old,
+  (a < length names)%nat -> (a = dflt -> first_not_locale names segs = true) -> old_ok_p dflt a old ->
+  strip_locale names old (prefix_of names dflt a ++ segs) = segs.
+Proof.
+  intros names dflt a segs old Ha Hread Hold. unfold prefix_of.
+  destruct (Nat.eqb a dflt) eqn:E.
+  - apply Nat.eqb_eq in E. cbn [app]. destruct old as [l|]; [|reflexivity].
+    unfold old_ok_p in Hold. subst l. cbn [strip_locale].
+    destruct segs as [|f rest]; [reflexivity|].
+    specialize (Hread E). cbn [first_not_locale] in Hread. apply negb_true_iff in Hread.
+    destruct (str_eqb f (name_of names a)) eqn:F; [|reflexivity].
+    apply str_eqb_eq in F. exfalso.
+    assert (X : existsb (fun nm => str_eqb nm f) names = true).
+    { apply existsb_exists. exists (name_of names a). split; [unfold name_of; apply nth_In; exact Ha|].
+      rewrite F. apply str_eqb_refl. }
+    congruence.
+  - cbn [app]. destruct old as [l|].
+    + unfold old_ok_p in Hold. subst l. cbn [strip_locale]. rewrite str_eqb_refl. reflexivity.
+    + unfold old_ok_p in Hold. apply Nat.eqb_neq in E. contradiction.
+Qed.
+
+Theorem switch_first_match_pathname : forall names dflt base bsegs t a b segs old path,
+  valid_url names dflt t a b segs -> base_ok base bsegs -> old_ok_p dflt a old ->
+  path_denotes names dflt bsegs a segs path ->
+  get_new_pathname names dflt base (tabs_of (length names) t) path b old
+  = Ok (render_path (bsegs ++ prefix_of names dflt b ++ expected_segs (length names) t a b segs)).
+Proof.
+  intros names dflt base bsegs t a b segs old path [Hn [Ht [Ha [Hb [Hs Hread]]]]] Hbase Hold Hpath.
+  destruct (base_ok_facts base bsegs Hbase) as [Bseg Btrim].
+  unfold get_new_pathname. cbv zeta.
+  rewrite (pb_push_base pb_new base bsegs Hbase).
+  assert (S1 : strip_base_path path base = Some (prefix_of names dflt a ++ segs)).
+  { unfold strip_base_path. rewrite Bseg. unfold path_denotes in Hpath. rewrite Hpath. apply strip_segs_iff. reflexivity. }
+  rewrite S1. cbv beta iota.
+  assert (O : match old with Some l => l | None => dflt end = a).
+  { destruct old as [l|]; unfold old_ok_p in Hold; congruence. }
+  rewrite O. rewrite (tabs_get_of _ t a Ha). cbv beta iota. rewrite (tabs_get_of _ t b Hb). cbv beta iota.
+  match goal with |- context [localize_path _ _ _ ?pb] =>
+    assert (P1 : pb = pb_new ++ base_piece bsegs ++ prefix_of names dflt b) end.
+  { unfold prefix_of. destruct (Nat.eqb b dflt).
+    - rewrite app_nil_r. reflexivity.
+    - rewrite pb_push_seg by (apply names_ok_nth; assumption). rewrite <- app_assoc. reflexivity. }
+  rewrite P1.
+  rewrite (strip_locale_segs names dflt a segs old Ha Hread Hold).
+  rewrite (localize_first (length names) t a b segs _ Ht Ha Hb Hs).
+  unfold expected_segs. destruct (first_parse (length names) a t segs) as [inst|] eqn:F.
+  - unfold pb_new. cbn [app]. rewrite <- app_assoc. f_equal. apply pb_build_base.
+  - rewrite (fold_push_segs segs _ Hs). unfold pb_new. cbn [app]. rewrite <- !app_assoc. f_equal. apply pb_build_base.
+Qed.
+
+Theorem switch_first_match : forall names dflt base bsegs t a b segs old path search hash,
+  valid_url names dflt t a b segs -> base_ok base bsegs -> old_ok_p dflt a old ->
+  path_denotes names dflt bsegs a segs path ->
+  get_new_path names dflt base (tabs_of (length names) t) path search hash b old
+  = Ok (render_path (bsegs ++ prefix_of names dflt b ++ expected_segs (length names) t a b segs) ++ url_suffix search hash).
+Proof.
+  intros. unfold get_new_path.
+  rewrite (switch_first_match_pathname names dflt base bsegs t a b segs old path); auto.
+Qed.
+
+Lemma expected_roundtrip : forall n t a b segs inst,
+  first_parse n a t segs = Some inst -> first_parse n b t (render b inst) = Some inst ->
+  expected_segs n t b a (expected_segs n t a b segs) = segs.
+Proof.
+  intros n t a b segs inst H1 H2. unfold expected_segs. rewrite H1, H2. apply (first_parse_render n a t segs inst H1).
+Qed.
+
+Lemma render_path_denotes : forall names dflt bsegs l segs,
+  names_ok names = true -> (l < length names)%nat -> forallb seg_ok bsegs = true -> forallb seg_ok segs = true ->
+  path_denotes names dflt bsegs l segs (render_path (bsegs ++ prefix_of names dflt l ++ segs)).
+Proof.
+  intros names dflt bsegs l segs Hn Hl Hb Hs. unfold path_denotes. apply path_segments_render.
+  apply forallb_app_true; [exact Hb|]. apply forallb_app_true; [apply prefix_ok; assumption|exact Hs].
+Qed.
+
+(** the round trip under first-match semantics: required when the first reading of the image is the
+    same reading (same route, read the same way) *)
+Theorem roundtrip_first_match : forall names dflt base bsegs t a b segs inst path search hash,
+  valid_url names dflt t a b segs -> valid_url names dflt t b a (render b inst) ->
+  first_parse (length names) a t segs = Some inst ->
+  first_parse (length names) b t (render b inst) = Some inst ->
+  base_ok base bsegs -> path_denotes names dflt bsegs a segs path ->
+  forall u, get_new_pathname names dflt base (tabs_of (length names) t) path b (Some a) = Ok u ->
+  get_new_path names dflt base (tabs_of (length names) t) u search hash a (Some b)
+  = Ok (render_path (bsegs ++ prefix_of names dflt a ++ segs) ++ url_suffix search hash).
+Proof.
+  intros names dflt base bsegs t a b segs inst path search hash Hv Hv' F1 F2 Hbase Hpath u Hu.
+  rewrite (switch_first_match_pathname names dflt base bsegs t a b segs (Some a) path Hv Hbase eq_refl Hpath) in Hu.
+  inversion Hu; subst u. clear Hu.
+  assert (E : expected_segs (length names) t a b segs = render b inst) by (unfold expected_segs; rewrite F1; reflexivity).
+  rewrite E.
+  destruct Hv' as [Hn [Ht [Hb [Ha [Hs Hread]]]]]. pose proof Hbase as [Hbs _].
+  rewrite (switch_first_match names dflt base bsegs t b a (render b inst) (Some b) _ search hash
+             (conj Hn (conj Ht (conj Hb (conj Ha (conj Hs Hread))))) Hbase eq_refl
+             (render_path_denotes names dflt bsegs b (render b inst) Hn Hb Hbs Hs)).
+  unfold expected_segs. rewrite F2. rewrite (first_parse_render _ a t segs inst F1). reflexivity.
+Qed.
+
+(** a path with exactly one reading has that reading as its first reading: the unique-reading
+    theorems are instances of the first-match ones *)
+Lemma reads_as_first : forall n t a inst, reads_as n t a inst -> first_parse n a t (render a inst) = Some inst.
+Proof.
+  intros n t a inst [[r [Hr Hi]] Huniq]. unfold first_parse.
+  destruct (flat_map (fun r => parses n a r (render a inst)) t) as [|i ps] eqn:E.
+  - exfalso. assert (Hin : In inst (flat_map (fun r => parses n a r (render a inst)) t)).
+    { apply in_flat_map. exists r. split; [exact Hr|apply parses_complete; exact Hi]. }
+    rewrite E in Hin. contradiction.
+  - cbn [hd_error]. f_equal.
+    assert (Hin : In i (flat_map (fun r => parses n a r (render a inst)) t)) by (rewrite E; left; reflexivity).
+    apply in_flat_map in Hin. destruct Hin as [r' [Hr' Hp]].
+    destruct (parses_sound n a r' _ i Hp) as [P1 P2]. exact (Huniq r' i Hr' P1 P2).
+Qed.
+
+Theorem spec_first_match_holds : forall names dflt base bsegs t a b segs old path search hash,
+  valid_url names dflt t a b segs -> base_ok base bsegs -> old_ok_p dflt a old ->
+  path_denotes names dflt bsegs a segs path ->
+  spec_first_match names dflt bsegs t a b segs search hash
+    (get_new_path names dflt base (tabs_of (length names) t) path search hash b old) = true.
+Proof.
+  intros. rewrite (switch_first_match names dflt base bsegs t a b segs old path); auto.
+  unfold spec_first_match, res_str_eqb. apply str_eqb_refl.
+Qed.
+
+Lemma valid_url_b_sound : forall names dflt t a b segs, valid_url_b names dflt t a b segs = true -> valid_url names dflt t a b segs.
+Proof.
+  intros names dflt t a b segs H. unfold valid_url_b in H.
+  repeat (apply andb_true_iff in H; let H' := fresh "G" in destruct H as [H H']).
+  repeat split; try assumption; try (apply Nat.ltb_lt; assumption).
+  intro E. apply orb_true_iff in G. destruct G as [G|G]; [|exact G].
+  apply negb_true_iff in G. apply Nat.eqb_neq in G. contradiction.
+Qed.
+
+Lemma get_locale_denotes : forall names dflt base bsegs a segs path,
+  NoDup names -> (a < length names)%nat -> (a = dflt -> first_not_locale names segs = true) ->
+  base_ok base bsegs -> path_denotes names dflt bsegs a segs path ->
+  get_locale_from_path names path base = if Nat.eqb a dflt then None else Some a.
+Proof.
+  intros names dflt base bsegs a segs path Hnd Ha Hread Hbase Hpath.
+  destruct (base_ok_facts base bsegs Hbase) as [Bseg _].
+  unfold get_locale_from_path, strip_base_path. rewrite Bseg. unfold path_denotes in Hpath. rewrite Hpath.
+  rewrite (proj2 (strip_segs_iff bsegs _ (prefix_of names dflt a ++ segs)) eq_refl).
+  unfold prefix_of. destruct (Nat.eqb a dflt) eqn:E.
+  - apply Nat.eqb_eq in E. cbn [app]. specialize (Hread E).
+    destruct segs as [|f rest]; [reflexivity|].
+    cbn [first_not_locale] in Hread. apply negb_true_iff in Hread. apply find_index_none. exact Hread.
+  - cbn [app]. apply (find_index_iff _ ([] : str)). split; [exact Ha|]. split; [apply str_eqb_refl|].
+    intros j Hj. apply str_eqb_neq. unfold name_of. intro Heq.
+    assert (j = a); [|lia]. apply (proj1 (NoDup_nth names ([] : str)) Hnd); [lia|exact Ha|exact Heq].
+Qed.
+
+Lemma hist_valid_b_sound : forall names dflt t ls a segs, hist_valid_b names dflt t a segs ls = true -> hist_valid names dflt t a segs ls.
+Proof.
+  intros names dflt t. induction ls as [|l ls IH]; intros a segs H; cbn [hist_valid_b hist_valid] in *; [exact I|].
+  apply andb_true_iff in H. destruct H as [H1 H2]. split; [apply valid_url_b_sound; exact H1|apply IH; exact H2].
+Qed.
+
+Theorem history_first_match : forall names dflt base bsegs t by_path ls a segs path,
+  hist_valid names dflt t a segs ls -> base_ok base bsegs -> (by_path = true -> NoDup names) ->
+  path_denotes names dflt bsegs a segs path ->
+  history names dflt base (tabs_of (length names) t) by_path path (Some a) ls
+  = Ok (map (fun ls' => render_path (bsegs ++ prefix_of names dflt (fst ls') ++ snd ls'))
+            (expected_history (length names) t a segs ls)).
+Proof.
+  intros names dflt base bsegs t by_path. induction ls as [|l ls IH]; intros a segs path Hv Hbase Hnd Hpath; [reflexivity|].
+  cbn [history expected_history map hist_valid fst snd] in *. destruct Hv as [Hv Hrest].
+  pose proof Hv as [Hn [Ht [Ha [Hl [Hs Hread]]]]].
+  assert (Hold : old_ok_p dflt a (if by_path then get_locale_from_path names path base else Some a)).
+  { destruct by_path; [|reflexivity].
+    rewrite (get_locale_denotes names dflt base bsegs a segs path (Hnd eq_refl) Ha Hread Hbase Hpath).
+    destruct (Nat.eqb a dflt) eqn:E; [apply Nat.eqb_eq in E; exact E|reflexivity]. }
+  rewrite (switch_first_match_pathname names dflt base bsegs t a l segs _ path Hv Hbase Hold Hpath).
+  destruct ls as [|l2 ls'].
+  - reflexivity.
+  - rewrite (IH l (expected_segs (length names) t a l segs) _ Hrest Hbase Hnd); [reflexivity|].
+    cbn [hist_valid] in Hrest. destruct Hrest as [[_ [_ [_ [_ [Hs' _]]]]] _]. pose proof Hbase as [Hbs _].
+    apply render_path_denotes; assumption.
 Qed.
